@@ -145,6 +145,9 @@ def load_known():
 
 
 
+_IN_PROGRESS = set()
+
+
 class Retag:
     """View of a Report that files everything a shared rule function reports under one rule id of the importing property."""
 
@@ -170,22 +173,29 @@ class Retag:
         return self.rep.inst(self.rule, desc, nontrivial, sample)
 
 
-def import_rules(rep, fx, source_prop, as_rule, only_rules=None, floor=1, what=""):
+def import_rules(rep, fx, source_prop, as_rule, only_rules=None, floor=1, what="", key_filter=None):
     """Re-evaluate another property's rules on the same facts and import their obligations under `as_rule` of this report
     (a necessary clause shared between two properties is checked by one implementation). Fails closed."""
     import importlib
 
+    # properties import each other's rules (C14 <- C01 <- C14 ...): a property that is already being evaluated further up is not
+    # evaluated again - its own run reports what it finds
+    if source_prop in _IN_PROGRESS:
+        return 0
     mod = importlib.import_module(f"slx.rules.{source_prop.lower()}")
     r = Report(source_prop, "quick", 0)
     r.finish = lambda *a, **k: 0
+    _IN_PROGRESS.add(source_prop)
     try:
         mod.check(fx, r, "quick")
     except Exception as e:
+        _IN_PROGRESS.discard(source_prop)
         rep.oblige(False, as_rule, f"shared-engine:{source_prop}", "-", f"the rules shared with {source_prop} crashed: {e}")
         return 0
+    _IN_PROGRESS.discard(source_prop)
     bad = {}
     for v in r.violations:
-        if only_rules is None or v["rule"] in only_rules:
+        if (only_rules is None or v["rule"] in only_rules) and (key_filter is None or key_filter(v["key"])):
             bad.setdefault(v["key"], v)
     n = 0
     seen = set()
@@ -194,7 +204,7 @@ def import_rules(rep, fx, source_prop, as_rule, only_rules=None, floor=1, what="
             continue
         for key in keys:
             full = f"{rule}|{key}"
-            if full in seen:
+            if full in seen or (key_filter is not None and not key_filter(full)):
                 continue
             seen.add(full)
             n += 1
